@@ -95,6 +95,9 @@ def strip(c):
 
 
 def run(ctx):
+    import glob
+    for f in glob.glob(os.path.join(vlib.VERIF, "replays", "%s-%d-*.json" % (PROP, ctx.seed))):
+        os.remove(f)      # replays of an earlier run with the same seed
     info, ok = vlib.proof_stage(ctx, PROP_FILE, ["Run/C09.v"])
     cov = dict(info)
     cov["trusted_base"] = vlib.STD_TRUSTED + [
@@ -200,6 +203,7 @@ def run(ctx):
     for c in oracle_fail:
         sig = dict(c.get("sig") or {"kind": c["oracle"].split(":")[0]})
         sig.setdefault("type", c.get("type", c["kind"]))
+        sig = {k: v for k, v in sig.items() if not k.startswith("peers_")}   # detail, not part of the class
         f = vlib.match_known(PROP, sig)
         if f:
             ctx.known(f, f["what"])
@@ -207,7 +211,8 @@ def run(ctx):
         else:
             key = json.dumps(sig, sort_keys=True)
             best = new_fail.get(key)
-            if best is None or (c.get("n", 0), len(c.get("policy", ""))) < (best.get("n", 0), len(best.get("policy", ""))):
+            size = lambda x: (x.get("n", 0) + len((x.get("res") or {}).get("history", [])), len(x.get("policy", "")))
+            if best is None or size(c) < size(best):
                 new_fail[key] = c          # shrunk: the smallest failing response of each class
     for key, c in list(new_fail.items())[:8]:
         r = strip(c)
